@@ -8,7 +8,7 @@ from stix2 import markings
 from stix2.exceptions import InvalidSelectorError, InvalidValueError, STIXError
 from stix2.markings import utils as mu
 
-from engine.hlib import V, pick
+from engine.hlib import Native, V, pick
 
 M1 = "marking-definition--613f2e26-407d-48c7-9eca-b8e91df99dc9"
 
@@ -89,7 +89,7 @@ def sel_objects(oi: int, si: int) -> bool:
     if si >= len(table):
         return True
     si = pick(si, len(table))
-    with NoTracing():
+    with Native():
         ok = run_object_case(oi, si)
     V.reached()
     return ok
